@@ -11,7 +11,9 @@ repository changes the model. Implemented statements (exactly those the block st
   INSERT OR IGNORE INTO t VALUES  skipped when the primary key or a UNIQUE constraint matches an
                                   existing row; a non-NULL foreign key without parent row raises
                                   IntegrityError (OR IGNORE does not cover foreign keys)
-  SELECT cols FROM t [ORDER BY c] rows in insertion order; ORDER BY = stable sort, composed with a
+  INSERT OR REPLACE / INSERT INTO  REPLACE deletes the conflicting row and appends the new one (fresh rowid: last in a scan
+                                  without ORDER BY), foreign keys checked at statement end; plain INSERT raises on conflict
+  SELECT cols FROM t [ORDER BY c] rows in insertion (rowid) order; ORDER BY = stable sort, composed with a
                                   caller-supplied permutation inside groups of equal keys (SQLite
                                   leaves the order of ties unspecified)
 
@@ -137,6 +139,12 @@ class Database:
                 raise OperationalError("table %s has %d columns but %d values were supplied" % (t.name, len(t.cols), len(params)))
             self.insert_or_ignore(t, tuple(params))
             return []
+        if kind in ("insert-replace", "insert-abort"):
+            t = self.tables[info]
+            if len(params) != len(t.cols):
+                raise OperationalError("table %s has %d columns but %d values were supplied" % (t.name, len(t.cols), len(params)))
+            self.insert_or_ignore(t, tuple(params), mode=kind[7:])
+            return []
         if kind == "select":
             cols, tname, order = info
             t = self.tables[tname]
@@ -150,7 +158,7 @@ class Database:
             return [tuple(r[i] for i in idx) for r in rows]
         raise OperationalError("unsupported statement: " + sql[:80])
 
-    def insert_or_ignore(self, t: Table, row: Tuple[Any, ...]) -> None:
+    def insert_or_ignore(self, t: Table, row: Tuple[Any, ...], mode: str = "ignore") -> None:
         for v in row:
             if isinstance(v, int) and not isinstance(v, bool) and not (-(2 ** 63) <= v < 2 ** 63):
                 raise OverflowError("Python int too large to convert to SQLite INTEGER")
@@ -167,7 +175,14 @@ class Database:
                         same = False
                         break
                 if same:
-                    return          # OR IGNORE
+                    if mode == "ignore":
+                        return          # OR IGNORE
+                    if mode == "abort":
+                        raise IntegrityError("UNIQUE constraint failed: " + t.name)
+                    # OR REPLACE: the conflicting row is deleted, the new row is appended (fresh rowid = last in scan order).
+                    # Foreign keys are checked at the end of the statement: a child of the deleted row must find a parent again.
+                    t.rows = [x for x in t.rows if x is not r]
+                    self._replaced = True
         # foreign keys
         for (cs, pt, pcs) in t.fks:
             vals = [row[t.col(c)] for c in cs]
@@ -190,6 +205,19 @@ class Database:
             if not found:
                 raise IntegrityError("FOREIGN KEY constraint failed")
         t.rows.append(row)
+        if getattr(self, "_replaced", False):
+            self._replaced = False
+            for child in self.tables.values():
+                for (cs, pt, pcs) in child.fks:
+                    if pt != t.name:
+                        continue
+                    pidx = [t.col(c) for c in pcs]
+                    for cr in child.rows:
+                        vals = [cr[child.col(c)] for c in cs]
+                        if any(v is None for v in vals):
+                            continue
+                        if not any(all(pr[i] == v for i, v in zip(pidx, vals)) for pr in t.rows):
+                            raise IntegrityError("FOREIGN KEY constraint failed")
 
 
 def _classify_statement(sql: str) -> Tuple[str, Any]:
@@ -212,6 +240,12 @@ def _classify_statement(sql: str) -> Tuple[str, Any]:
     elif up.startswith("INSERT OR IGNORE INTO"):
         m = re.match(r"INSERT OR IGNORE INTO (\w+) VALUES \(([?, ]*)\)", s, re.I)
         out = ("insert", m.group(1))
+    elif up.startswith("INSERT OR REPLACE INTO") or up.startswith("REPLACE INTO"):
+        m = re.match(r"(?:INSERT OR )?REPLACE INTO (\w+) VALUES \(([?, ]*)\)", s, re.I)
+        out = ("insert-replace", m.group(1))
+    elif up.startswith("INSERT INTO"):
+        m = re.match(r"INSERT INTO (\w+) VALUES \(([?, ]*)\)", s, re.I)
+        out = ("insert-abort", m.group(1))
     elif up.startswith("SELECT"):
         m = re.match(r"SELECT (.*?) FROM (\w+)(?: ORDER BY (\w+))?$", s, re.I)
         if not m:
